@@ -392,7 +392,7 @@ def instruction_lemma(ctx, eng, ce, b, op, cb=None, haltbug=False):
 
 ASPECTS = {"C11": ["flow", "nopanic"], "C04": ["frame", "flow", "boundary"], "C05": ["regs", "flags", "mem", "frame", "cycles", "flow"],
            "C01": ["regs", "flags", "mem", "frame", "flow", "nopanic", "boundary"], "C02": ["cycles", "flow", "boundary"],
-           "C03": ["accesses", "flow", "boundary"], "C23": ["mem", "flow"]}
+           "C03": ["accesses", "flow", "boundary"], "C23": ["mem", "flow", "frame"]}
 
 
 def opcode_chunks(nchunks=32):
